@@ -34,7 +34,7 @@ where
     }
 
     pub fn clear(&mut self) {
-        self.root_mut().take();
+        drop_tree(self.root_mut().take());
         self.size = 0;
     }
 
@@ -389,6 +389,31 @@ impl<K, V> DoubleEndedIterator for IntoIter<K, V> {
 }
 
 impl<K, V> ExactSizeIterator for IntoIter<K, V> {}
+
+impl<K, V> Drop for IntoIter<K, V> {
+    fn drop(&mut self) {
+        drop_tree(self.cur.take());
+    }
+}
+
+/// Releases all nodes of a (sub)tree without recursion. The depth of a splay tree is not
+/// bounded by anything better than its size (monotone insertion builds a chain), so the
+/// derived, recursive drop of nested boxes can exhaust the stack on large trees.
+fn drop_tree<K, V>(root: Option<Box<Node<K, V>>>) {
+    let mut cur = root;
+    while let Some(mut node) = cur {
+        cur = match node.pop_left() {
+            // rotate the left child up; `node` keeps at most a right subtree of unvisited nodes
+            Some(mut left) => {
+                node.left = left.pop_right();
+                left.right = Some(node);
+                Some(left)
+            }
+            // no left child: `node` is released here with both links empty
+            None => node.pop_right(),
+        };
+    }
+}
 
 /// Performs a top-down splay operation on a tree rooted at `node`. This will
 /// modify the pointer to contain the new root of the tree once the splay
